@@ -80,7 +80,7 @@ CTX_TEXT = st.one_of(st.text(max_size=10), st.text(alphabet='kéy€\U0001F600v'
 
 def strategy(tier):
   key = st.one_of(CTX_TEXT, st.sampled_from(['_', '_trace', '_a_', 'a_', '_x.y', 'x__'])).filter(
-      lambda k: not k.startswith('__') and k not in (CLIENT_ID_KEY, DEADLINE_KEY))
+      lambda k: not k.startswith('__') and k not in (CLIENT_ID_KEY, DEADLINE_KEY, 'vf.call'))
   call = c14._call().flatmap(lambda c: st.sampled_from(['reply', 'reply', 'reply_ctx', 'never']).map(lambda b: dict(c, behave=b)))
   hello = st.fixed_dictionaries({'m': st.just('hi'), 'args': st.tuples(c14.TEXT).map(list), 'outcome': st.just('value'),
                                  'ret': c14.TEXT, 'kw': st.booleans(), 'behave': st.sampled_from(['reply', 'reply_ctx', 'never'])})
@@ -313,6 +313,7 @@ class _Terminal(ClientMessageSink):
 def _exec_early(plan):
   """Several callers hand their requests to the sink chain from different greenlets while the connection is still
   connecting / exchanging the initial ping: every frame must still carry its own caller's contexts and payload."""
+  plan = dict(plan, props=[kv for kv in plan['props'] if kv[0] != 'vf.call'])      # the marker key below is the harness's own
   import gevent
   net = SimNet()
   net.install()
